@@ -254,6 +254,14 @@ def k2(ctx):
         if f.body is None:
             continue
         groups = {}
+        # a lambda lives in the instantiation of the function it is written in
+        owner = f
+        seen_ = set()
+        while owner is not None and owner.is_lambda and id(owner) not in seen_:
+            seen_.add(id(owner))
+            owner = prog.funcs.get(owner.parent)
+        if owner is None:
+            owner = f
         for c in calls_in(f.body):
             t = callee_func(prog, f, c)
             if t is None or not t.tparams:
@@ -261,29 +269,29 @@ def k2(ctx):
             groups.setdefault(t.qualname, []).append((c, t))
             # K2b: inside an instantiation, same-named template parameters are forwarded
             for pn in t.tparams:
-                if pn in f.tparams and _boolarg(t.targ(pn)) is not None:
+                if pn in owner.tparams and _boolarg(t.targ(pn)) is not None:
                     site = '%s->%s/%s' % (short(f), short(t), pn)
-                    ctx.check(site, f.targ(pn) == t.targ(pn),
+                    ctx.check(site, owner.targ(pn) == t.targ(pn),
                               '%s calls %s with its own %s' % (inst(f), inst(t), pn),
                               '%s (with %s=%s) calls %s: template argument %s not forwarded'
-                              % (inst(f), pn, f.targ(pn), inst(t), pn), c.loc)
+                              % (inst(f), pn, owner.targ(pn), inst(t), pn), c.loc)
         if not groups:
             continue
         parent = None
         inits = None
         for q, lst in groups.items():
             variants = {t.targs for _, t in lst}
-            if len(variants) < 2:
-                continue
             if parent is None:
                 parent = enclosing_map(f.body)
                 inits = local_inits(f)
             t0 = lst[0][1]
             for pi, pn in enumerate(t0.tparams):
                 vals = {_boolarg(t.targs[pi]) if pi < len(t.targs) else None for _, t in lst}
-                if None in vals or len(vals) < 2:
-                    continue
+                if None in vals or pn in owner.tparams:
+                    continue        # not a flag parameter / forwarded from the caller's own (K2b)
                 exp = FLAG_OF_PARAM.get(pn)
+                if len(vals) < 2 and exp is None:
+                    continue
                 guarded = []
                 unguarded = []
                 for c, t in lst:
@@ -308,6 +316,12 @@ def k2(ctx):
                                   '%s: %s=%s chosen on the path where flag %s is %s (expected %s)'
                                   % (inst(f), pn, got, exp[0], flagval, want), c.loc,
                                   {'callee': inst(t)})
+                elif unguarded and not guarded and len(vals) < 2:
+                    # one variant only, under no test of the flag: nothing to compare it with here
+                    # (a deliberate single-registry access); listed, not judged
+                    site = '%s=>%s/%s/single' % (short(f), q.split('::')[-1], pn)
+                    ctx.info(site, '%s uses only %s=%s of %s, not under a test of the flag'
+                             % (inst(f), pn, sorted(vals)[0], q), unguarded[0][0].loc)
                 elif unguarded and not guarded:
                     # both variants touched unconditionally (registry: NONE_IS_NODE and
                     # NONE_IS_LEAF tables are updated together)
